@@ -119,9 +119,10 @@ def run_tymer(case):
     from hio.base import tyming
     _, (t0, t1, k0, k1), (w, dur, start), ops = case
     ts = [tyming.Tymist(tyme=un(t0), tock=un(k0)), tyming.Tymist(tyme=un(t1), tock=un(k1))]
-    kw = {}
+    kept = [ts[0].tymen(), ts[1].tymen()]      # closures made once and re-used: ("wind", i) hands over kept[i] -- the very
+    kw = {}                                      # object the tymer already holds when it is wound to i; ("windf", i) a fresh one
     if w is not None:
-        kw["tymth"] = ts[w].tymen()
+        kw["tymth"] = kept[w]
     try:
         tm = tyming.Tymer(duration=un(dur), start=un(start), **kw)
         sib = tyming.Tymer(tymth=ts[0].tymen(), duration=un(dur))
@@ -147,7 +148,11 @@ def run_tymer(case):
             elif k == "restart":
                 ret = sc(tm.restart(duration=un(op[1])))
             elif k == "wind":
+                tm.wind(kept[op[1]])
+            elif k == "windf":
                 tm.wind(ts[op[1]].tymen())
+            elif k == "windh":
+                tm.wind(tm.tymth)          # the closure read back from the tymer itself
             elif k == "bad":
                 b = BAD_ARGS[op[2] % len(BAD_ARGS)]
                 if op[1] == "start-dur":
@@ -208,7 +213,7 @@ def oracle_tymer(case, obs):
     chk(obs[0])
     for op, o in zip(ops, obs[1:]):
         k = op[0]
-        rejected = k == "bad" or (k == "start" and op[2] is None and w is None)
+        rejected = k == "bad" or (k in ("start", "windh") and (k == "windh" or op[2] is None) and w is None)
         if rejected:
             if o[0] != "raised":
                 bad.add("tymer-bad-call-accepted")
@@ -233,9 +238,11 @@ def oracle_tymer(case, obs):
             rdur = op[1] if op[1] is not None else rdur
             if o[0] != rstart:
                 bad.add("tymer-restart-at-previous-stop")
-        elif k == "wind":
+        elif k in ("wind", "windf"):
             w = op[1]
             rstart = tymes[w]
+        elif k == "windh":
+            rstart = tymes[w]           # re-winding onto the same tymist begins a fresh period at its current tyme
         chk(o)
     if len(obs) != len(ops) + 1:
         bad.add("tymer-trace-length")
@@ -277,9 +284,15 @@ def gen_tymer(rng):
                 s = val()
             ops.append(("start", d, s))
         else:
-            ops.append(("wind", rng.choice([0, 1])))
-            cur = ops[-1][1]
+            i = cur if (cur is not None and rng.random() < 0.5) else rng.choice([0, 1])      # often the tymist it is already on
+            ops.append((rng.choice(["wind", "wind", "windf"]), i))
+            cur = i
         q = rng.random()
+        if q > 0.93 and cur is not None:
+            ops.append(("tyme", cur, val(-20, 80)))
+            ops.append((rng.choice(["wind", "windh"]), cur) if rng.random() < 0.5 else ("windh",))
+            if len(ops[-1]) == 2 and ops[-1][0] == "windh":
+                ops[-1] = ("windh",)
         if q < 0.06:
             ops.append(("bad", rng.choice(["start-dur", "start-start", "restart-dur"]), rng.randint(0, 1)))
         elif q < 0.12:
@@ -555,19 +568,60 @@ def gen_mono(rng):
 # --------------------------------------------------------------------------
 # real-time pacing
 
-def _mkdoer(clock, n, xs, exc=False):
+def _mktriv():
+    def triv(tymth=None, tock=0.0, **kw):
+        while True:
+            yield
+    triv.tock = 0.0
+    triv.done = None
+    triv.opts = {}
+    return triv
+
+
+def _mkdoer(clock, n, xs, exc=False, holder=None):
+    """the doer of the pacing scenarios: lives n cycles; in cycle k it follows xs[k]: an int x = x extra clock readings;
+    (x, e) = the same plus, after the first reading, an operation on the scheduler that runs it (holder[0]):
+    e = 1 doist.extend([a new trivial doer]), 2 doist.remove(every doer extended so far), 3 extend one and remove it again.
+    The operation is logged as ("o", e).  Before it ends the doer removes what is still extended (so the run can end)."""
+    live = []
+
+    def sched(e):
+        d = holder[0] if holder else None
+        clock.log.append(("o", e))
+        if d is None:
+            return
+        if e in (1, 3):
+            t = _mktriv()
+            d.extend([t])
+            live.append(t)
+        if e in (2, 3):
+            d.remove(list(live))
+            del live[:]
+
     def doer(tymth=None, tock=0.0, **kw):
         k = 0
         while True:
             yield
+            step = xs[k] if k < len(xs) else 0
+            x, e = step if isinstance(step, tuple) else (step, 0)
             clock.tag = "x"
             try:
-                for _ in range(xs[k] if k < len(xs) else 0):
+                for i in range(x):
                     _time.time()
+                    if i == 0 and e:
+                        clock.tag = "t"
+                        sched(e)
+                        clock.tag = "x"
+                if x == 0 and e:
+                    clock.tag = "t"
+                    sched(e)
             finally:
                 clock.tag = "t"
             k += 1
             if k >= n:
+                if live and holder and holder[0] is not None:
+                    holder[0].remove(list(live))
+                    del live[:]
                 if exc:
                     raise RuntimeError("doer failed")
                 return True
@@ -615,13 +669,15 @@ def run_pace(case):
     _, base, incs, ovs, tock0, pre, n, xs = case
     clock = FakeClock(base, incs, ovs)
     LDoist = _mkdoist(clock)
-    doer = _mkdoer(clock, n, xs)
+    holder = [None]
+    doer = _mkdoer(clock, n, xs, holder=holder)
     end = "done"
     tock_run = None
     i_run = None
     with patched(clock):
         try:
             d = LDoist(real=True, tock=un(tock0))
+            holder[0] = d
             d._cyc = 0
             _pre(clock, d, pre, LDoist)
             tock_run = sc(d.tock)
@@ -674,7 +730,7 @@ def run_pace2(case):
             i_run = len(clock.log)
             clock.kbd = mode == "kbd"
             try:
-                d.do(doers=[_mkdoer(clock, n, xs, exc=(mode == "exc"))] if n > 0 else [])
+                d.do(doers=[_mkdoer(clock, n, xs, exc=(mode == "exc"), holder=[d])] if n > 0 else [])
             except KeyboardInterrupt:
                 pass
             except RuntimeError:
@@ -699,7 +755,7 @@ def run_pace2(case):
                     d.tock = un(tock2)
                 tock2run = sc(d.tock)
                 d._cyc = 0
-                doer2 = _mkdoer(clock, n2, xs2)
+                doer2 = _mkdoer(clock, n2, xs2, holder=[d])
                 if entry == "call":
                     d(doers=[doer2])
                 else:
@@ -826,8 +882,12 @@ def gen_pace(rng):
             pre.insert(rng.randint(k + 1, len(pre)), ("sibtock", rng.randint(1, 64) * grid))
     n = rng.choice([0, 1, 2, 3, 3, 4, 5, 6, 8, rng.randint(1, 14)])
     xs = tuple(rng.choice([0, 0, 0, 1, 2, 3]) if rng.random() < 0.5 else 0 for _ in range(n))
+    if n >= 2 and rng.random() < 0.35:
+        # the doer extends / removes other doers in mid-cycle, after the clock has moved inside that cycle
+        xs = tuple((rng.choice([0, 1, 1, 2, 3]), rng.choice([1, 1, 2, 3])) if (k < n - 1 and rng.random() < 0.6) else x
+                   for k, x in enumerate(xs))
     npre = 2 + sum(1 for p in pre if p[0] == "peek") + 2 * sum(1 for p in pre if p[0] == "sib")
-    nrun = 1 + sum(xs) + n * rng.choice([3, 4, 6]) + rng.randint(0, 10)
+    nrun = 1 + sum(x[0] if isinstance(x, tuple) else x for x in xs) + n * rng.choice([3, 4, 6]) + rng.randint(0, 10)
     profile = rng.choice(["steady", "stall", "back", "mixed", "mixed", "wild"])
     incs = gen_incs(rng, npre + nrun, grid, profile)
     # time passes (or the clock is stepped back) between construction and do()
@@ -867,6 +927,9 @@ def shrink_pace(case):
             continue      # removing a peek shifts the script; keep
     if any(xs):
         yield ("pace", base, incs, ovs, tock0, pre, n, tuple(0 for _ in xs))
+    for i, x in enumerate(xs):
+        if isinstance(x, tuple):
+            yield ("pace", base, incs, ovs, tock0, pre, n, xs[:i] + (x[0],) + xs[i + 1:])
     for i in range(len(ovs)):
         if ovs[i] != 0:
             yield ("pace", base, incs, ovs[:i] + (0,) + ovs[i + 1:], tock0, pre, n, xs)
@@ -1659,7 +1722,7 @@ def run_apace(case):
             i_run = len(clock.log)
             asyncio.get_event_loop, asyncio.sleep = (lambda: fake), fsleep
             try:
-                asyncio.run(d.ado(doers=[_mkdoer(clock, n, xs)]))
+                asyncio.run(d.ado(doers=[_mkdoer(clock, n, xs, holder=[d])]))
             finally:
                 asyncio.get_event_loop, asyncio.sleep = old_gel, old_sleep
         except Exhausted:
